@@ -37,6 +37,7 @@ pub fn build(family: &str, tier: Tier) -> Vec<Cfg> {
                         c.one_at_a_time = drain;
                         c.keep_alive = Some(if ci == 0 { 10 } else { 0 });
                         c.submits = vec![spec("pub1", publish("t", 1)), spec("pub0", publish("t", 0)), spec("sub", subscribe(&["f"])), spec("pub2", publish("t", 2))];
+                        if ci == 0 && !drain { c.submits[0].ack_timeout_ms = Some(700); c.submits[2].ack_timeout_ms = Some(300); c.keep_alive = Some(0); }
                         c.max_submits = if thorough { 3 } else { 2 };
                         c.max_conns = 2;
                         c.budget = if thorough { 2 } else { 1 };
